@@ -349,10 +349,11 @@ def apply_rewrites(body, counts):
         args = [body[a:b].strip() for a, b in parts]
         if len(args) == 3 and args[1] == '"{}"' and name == "write":
             edits.append((s_, c + 1, "fmt::sink(%s, %s)" % (args[0], args[2])))
-        elif FMT_LITERALS and name == "writeln" and len(args) >= 2 and args[1] in FMT_LITERALS:
+        elif FMT_LITERALS and name == "writeln" and (args[1] if len(args) >= 2 else '""') in FMT_LITERALS:
             # R19: `writeln!(w, LIT, a, b, ..)` with a DECLARED literal -> `fmtlog::lineN(w, id, a, b, ..)`: the line is recorded in
-            # the sink's ghost log as (id of the format string, rendered arguments)
-            edits.append((s_, c + 1, "fmtlog::line%d(%s)" % (len(args) - 2, ", ".join([args[0], str(FMT_LITERALS[args[1]])] + args[2:]))))
+            # the sink's ghost log as (id of the format string, rendered arguments); a bare `writeln!(w)` is the literal ""
+            lit = args[1] if len(args) >= 2 else '""'
+            edits.append((s_, c + 1, "fmtlog::line%d(%s)" % (max(len(args) - 2, 0), ", ".join([args[0], str(FMT_LITERALS[lit])] + args[2:]))))
             counts["R19"] = counts.get("R19", 0) + 1
             continue
         elif FMT_LITERALS and name == "writeln":
